@@ -283,3 +283,28 @@ impl Interpreter {
         self.rng = Rng::new(seed);
     }
 }
+
+#[cfg(abasic_verif)]
+impl Interpreter {
+    /// Read-only snapshot of the runtime state (verification harness only).
+    /// With `deep`, array contents are hashed as well.
+    pub fn verif_probe(&self, deep: bool) -> crate::verif_probe::VerifProbe {
+        let mut probe = crate::verif_probe::VerifProbe {
+            location: (None, 0),
+            line_tokens: vec![],
+            breakpoint: None,
+            stack: vec![],
+            loops: vec![],
+            arrays: self.arrays.verif_entries(deep),
+            variables: self.variables.verif_entries(),
+            functions: vec![],
+            data_cursor: None,
+            input_pending: self.input.is_some(),
+            rng_state: self.rng.verif_state(),
+            token_reads: 0,
+            line_count: 0,
+        };
+        self.program.verif_fill(&mut probe);
+        probe
+    }
+}
